@@ -111,6 +111,7 @@ void COTPdoReset(CO_TPDO *pdo, uint16_t num)
         COSyncRemove(sync, num, CO_SYNC_FLG_TX);
     }
     wp->Flags = 0;
+    COTPdoMapDelNum(wp->Node->TMap, num);
     
     /* pdo communication settings */
     err = CODictRdByte(cod, CO_DEV(0x1800 + num, 2), &type);
@@ -226,6 +227,21 @@ void COTPdoMapAdd(CO_TPDO_LINK *map, CO_OBJ *obj, uint16_t num)
     }
 }
 
+void COTPdoMapDelNum(CO_TPDO_LINK *map, uint16_t num)
+{
+    uint16_t id;
+
+    for (id = 0; id < (CO_TPDO_N << 3); id++) {
+        if (map[id].Num == num) {
+            map[id].Obj = 0;
+            map[id].Num = 0xFFFF;
+        }
+    }
+}
+
+/*
+* see function definition
+*/
 void COTPdoClear(CO_TPDO *pdo, CO_NODE *node)
 {
     uint16_t num;
